@@ -80,3 +80,17 @@ Lemma peer_witnesses_refused_when_repaired :
   step false flags_on (run_hist false flags_on empty_graph w_peerlink_hist) w_peerlink_op w_selfpeer_ids []
     = (run_hist false flags_on empty_graph w_peerlink_hist, Some ETopology).
 Proof. vm_compute. split; reflexivity. Qed.
+
+(* the PLURAL entry point set_properties(name=...) is not covered by the uniqueness check of 6648cd3 *)
+Definition w_setprops_op : op := OSetProp (RNode (S "b")) PNames (S "n1").
+Definition flags_rename_only : flags := mkFlags true true true true true true true false.
+Lemma set_properties_name_refuted :
+  let g := run_hist false flags_rename_only empty_graph w_rename_hist in
+  WF g /\ ~ WF (fst (step false flags_rename_only g w_setprops_op [] [])) /\
+  snd (step false flags_rename_only g w_setprops_op [] []) = None /\
+  step false flags_rename_only g w_rename_op [] [] = (g, Some ETopology) /\
+  step false flags_on g w_setprops_op [] [] = (g, Some ETopology).
+Proof.
+  split; [apply wf_b_reflect; vm_compute; reflexivity|]. split; [apply not_WF_by_b; vm_compute; reflexivity|].
+  vm_compute. repeat split.
+Qed.
